@@ -4,9 +4,12 @@ tables computed by an independent Earley recognizer."""
 import itertools
 import json
 import os
+import re
+import shutil
 import subprocess
 
 import kani
+import canon
 
 VERIF = kani.VERIF
 WORK = kani.WORK
@@ -260,6 +263,18 @@ E4_CORPUS = [
     dict(name="g19_lalr", file="g19_deep_chain.rustemo", args=["--table", "lalr"], nq=4, nt=5),
     dict(name="g20_empty_trailing", file="g20_empty_trailing.rustemo", args=[], nq=4, nt=6),
     dict(name="g21_split_rule", file="g21_split_rule.rustemo", args=[], nq=4, nt=6),
+    dict(name="g22_pager_third_ctx", file="g22_pager_third_ctx.rustemo", args=[], nq=3, nt=4),  # seed C04-f
+]
+
+# table/grammar pairs compared with the canonical LR(1) reference only (GLR tables keep their
+# conflicts, so the deterministic automaton harness does not apply)
+CANON_ONLY = [
+    dict(name="g22_glr_lalr", file="g22_pager_third_ctx.rustemo", args=["--glr", "--table", "lalr"]),
+    dict(name="g22_glr_rn", file="g22_pager_third_ctx.rustemo", args=["--glr"]),
+    dict(name="g4_glr_rn", file="g4_lr1_not_lalr.rustemo", args=["--glr"]),
+    dict(name="g1_glr_rn", file="g1_expr.rustemo", args=["--glr"]),
+    dict(name="g13_glr_rn", file="g13_nullable_chain.rustemo", args=["--glr"]),
+    dict(name="glr_calc_rn", file="/repo/tests/src/glr/forest/calc.rustemo", args=["--glr"]),
 ]
 
 
@@ -280,6 +295,14 @@ def generate_e4(tier):
             raise CompilerPanic(os.path.join(VERIF, "corpus", c["file"]), c["args"])
         if "error" in d:
             raise GenError("compiler rejected corpus grammar %s: %s" % (c["name"], d))
+        # C04: the same table against the independent canonical LR(1) reference (vlib/canon.py)
+        try:
+            ctext, charn, cstats = canon.emit(c["name"], d)
+        except canon.CanonError as e:
+            raise GenError("canonical LR(1) reference failed on %s: %s" % (c["name"], e))
+        mods.append(ctext)
+        harn.append(charn)
+        info["canon_" + c["name"]] = dict(cstats, grammar=c["file"], args=c["args"])
         # thorough bound: as deep as the reference table stays small (<= ~20k strings)
         A_ = len(d["grammar"]["terminals"]) - 1
         deep = {1: 12, 2: 10, 3: 8, 4: 7, 5: 6}.get(A_, 5 if A_ <= 7 else 4)
@@ -312,6 +335,60 @@ def generate_e4(tier):
             )
             stats.update({"maxlen": n, "unwind": unwind, "grammar": c["file"], "args": c["args"]})
             info[name] = stats
+    for c in CANON_ONLY:
+        d = vdump(os.path.join(VERIF, "corpus", c["file"]), c["args"])
+        if "panic" in d:
+            raise CompilerPanic(os.path.join(VERIF, "corpus", c["file"]), c["args"])
+        if "error" in d:
+            raise GenError("compiler rejected corpus grammar %s: %s" % (c["name"], d))
+        try:
+            ctext, charn, cstats = canon.emit(c["name"], d)
+        except canon.CanonError as e:
+            raise GenError("canonical LR(1) reference failed on %s: %s" % (c["name"], e))
+        mods.append(ctext)
+        harn.append(charn)
+        info["canon_" + c["name"]] = dict(cstats, grammar=c["file"], args=c["args"])
     open(os.path.join(gen, "tables.rs"), "w").write("\n".join(mods) + "\n")
     open(os.path.join(gen, "harnesses.rs"), "w").write("\n".join(harn) + "\n")
     return info
+
+
+# ---- C16 diagnostic corpus: grammars the compiler must answer with a parser or an Err ------
+DIAG_ARGS = [[], ["--glr"], ["--table", "lalr"], ["--no-pse"], ["--prefer-shifts"], ["--glr", "--table", "lalr", "--arrays"]]
+
+
+def run_diag_corpus():
+    """Runs the real public entry point (Settings::process_grammar, through vdump --gen, under
+    catch_unwind) on every grammar of /verif/corpus/diag x DIAG_ARGS. Returns one record per run:
+    outcome in {parser, diagnostic, panic, abort, timeout}. A concrete run of the real compiler -
+    a falsification device for C16, not a solver verdict."""
+    import glob
+    build_native()
+    recs = []
+    root = os.path.join(WORK, "diag")
+    if os.path.exists(root):
+        shutil.rmtree(root)
+    for f in sorted(glob.glob(os.path.join(VERIF, "corpus", "diag", "*.rustemo"))):
+        base = os.path.basename(f)
+        for i, args in enumerate(DIAG_ARGS):
+            out = os.path.join(root, "%s-%d" % (base[:-8], i))
+            os.makedirs(out)
+            g = os.path.join(out, base)
+            shutil.copyfile(f, g)
+            cmd = [VDUMP, g, "--out", os.path.join(out, "dump.json"), "--gen", os.path.join(out, "gen")] + args
+            try:
+                p = subprocess.run(cmd, capture_output=True, text=True, env=dict(kani.ENV, RUST_BACKTRACE="0"), timeout=120)
+                rc, err = p.returncode, p.stderr
+            except subprocess.TimeoutExpired:
+                rc, err = "timeout", ""
+            # only the outcome of process_grammar (the public entry point) counts; the dump hook is ours
+            outcome = {0: "parser", 3: "diagnostic", 4: "panic", "timeout": "timeout"}.get(rc, "abort")
+            where = ""
+            if outcome in ("panic", "abort"):
+                ms = re.findall(r"panicked at ([^\n]*?):\d+:\d+:\n([^\n]*)", err)
+                if ms:
+                    where = "%s: %s" % (ms[-1][0].replace("/repo/", ""), ms[-1][1].strip()[:160])
+                else:
+                    where = "rc=%s %s" % (rc, err[-200:])
+            recs.append({"grammar": base, "args": args, "outcome": outcome, "where": where})
+    return recs
